@@ -556,6 +556,17 @@ fn thread_op(k: usize, guards: &mut Vec<G>, w: &[&str]) -> Option<String> {
                 },
             }
         }
+        // the caller gives its last handle of the captured set away (moved, not cloned)
+        ["pushChildLast", v, x] => {
+            let ls = LSPANS.lock().unwrap().get_or_insert_with(HashMap::new).remove(*x);
+            match ls {
+                None => "bad-op unknown span or local spans".into(),
+                Some(ls) => match with_span(v, move |s| s.push_child_spans(ls)) {
+                    Some(()) => "ok".into(),
+                    None => "bad-op unknown span or local spans".into(),
+                },
+            }
+        }
         ["elapsed", v] => match with_span(v, |s| s.elapsed()) {
             Some(Some(d)) => format!("elapsed 1~{}", d.as_nanos()),
             Some(None) => "elapsed 0".into(),
